@@ -8,6 +8,7 @@ wt=/root/scratch/confirm_$name
 log=/root/scratch/confirm_$name.log
 git -C /repo worktree remove --force $wt >/dev/null 2>&1
 git -C /repo worktree add --detach $wt HEAD >/dev/null 2>&1 || exit 2
+mkdir -p $wt/.rt_tmp
 run() { (cd $wt && PYTHONPATH=$wt NUMBA_CACHE_DIR=$wt/.nb PYTHONHASHSEED=0 timeout 1800 /venv/bin/python "$@"); }
 {
 echo "== clean demo"; run $src/demo.py; c=$?; echo "exit=$c"
